@@ -1,0 +1,11 @@
+//go:build !verif
+
+package security
+
+// verifOn is false unless built with -tags verif; hook call sites are
+// `if verifOn { ... }` and compile to nothing without the tag.
+const verifOn = false
+
+type verifState struct{}
+
+func (a *Authenticator) verifEv(ev string, neg *SecurityNegotiation, kv ...any) {}
